@@ -5,6 +5,7 @@ import (
 	"encoding/json"
 	"fmt"
 	"sort"
+	"strings"
 
 	"github.com/syndtr/goleveldb/leveldb/comparer"
 	"github.com/syndtr/goleveldb/leveldb/iterator"
@@ -109,6 +110,16 @@ func (x *runIndex) Search(key []byte) int {
 }
 func (x *runIndex) Get(i int) iterator.Iterator { return iterator.NewArrayIterator(x.runs[i]) }
 
+// failIndex hands out data iterators that share one failure countdown.
+type failIndex struct {
+	runIndex
+	left *int
+}
+
+func (x *failIndex) Get(i int) iterator.Iterator {
+	return &failIter{Iterator: iterator.NewArrayIterator(x.runs[i]), left: x.left}
+}
+
 type c02CompTask struct {
 	Kind  string `json:"kind"` // merged | indexed
 	N     int    `json:"n"`
@@ -118,8 +129,50 @@ type c02CompTask struct {
 }
 
 type c02CompResult struct {
-	Cases, Seqs, Moves int
-	Viol               []string
+	Cases, Seqs, Moves, Errored int
+	Viol                        []string
+}
+
+// failIter is a child iterator whose source fails at its k-th positioning call (a table block
+// that cannot be read): the call returns false, the iterator is invalid from then on and
+// Error() reports it.
+type failIter struct {
+	iterator.Iterator
+	left *int // positioning calls until the failure (shared by the children of one parent)
+	err  error
+}
+
+var errC02Source = fmt.Errorf("verif: injected source failure")
+
+func (f *failIter) step() bool {
+	if f.err != nil {
+		return false
+	}
+	*f.left--
+	if *f.left == 0 {
+		f.err = errC02Source
+		return false
+	}
+	return true
+}
+func (f *failIter) First() bool        { return f.step() && f.Iterator.First() }
+func (f *failIter) Last() bool         { return f.step() && f.Iterator.Last() }
+func (f *failIter) Next() bool         { return f.step() && f.Iterator.Next() }
+func (f *failIter) Prev() bool         { return f.step() && f.Iterator.Prev() }
+func (f *failIter) Seek(k []byte) bool { return f.step() && f.Iterator.Seek(k) }
+func (f *failIter) Valid() bool        { return f.err == nil && f.Iterator.Valid() }
+func (f *failIter) Error() error       { return f.err }
+func (f *failIter) Key() []byte {
+	if f.err != nil {
+		return nil
+	}
+	return f.Iterator.Key()
+}
+func (f *failIter) Value() []byte {
+	if f.err != nil {
+		return nil
+	}
+	return f.Iterator.Value()
 }
 
 var c02Keys = []string{"a", "aa", "b", "b\xff", "c"}
@@ -163,6 +216,78 @@ func runC02Comp(t *c02CompTask) *c02CompResult {
 			if v != "" {
 				res.Viol = append(res.Viol, fmt.Sprintf("merged iterator, %d keys, assignment #%d: %s", t.N, a, v))
 				return res
+			}
+		}
+	case "merged-err":
+		// every assignment x child c fails at its k-th positioning call (k = 1..4)
+		total := 1
+		for range keys {
+			total *= 3
+		}
+		for a := t.From; a < t.To && a < total; a++ {
+			arrs := []*kvArray{{cmp: cmp}, {cmp: cmp}, {cmp: cmp}}
+			x := a
+			for i, k := range keys {
+				c := x % 3
+				x /= 3
+				arrs[c].ks = append(arrs[c].ks, []byte(k))
+				arrs[c].vs = append(arrs[c].vs, []byte(fmt.Sprintf("v%d", i)))
+			}
+			for fc := 0; fc < 3; fc++ {
+				for fk := 1; fk <= 4; fk++ {
+					res.Cases++
+					st := walkStats{}
+					v := walkAllErr(func() iterator.Iterator {
+						left := fk
+						its := make([]iterator.Iterator, 3)
+						for i := range its {
+							its[i] = iterator.NewArrayIterator(arrs[i])
+							if i == fc {
+								its[i] = &failIter{Iterator: its[i], left: &left}
+							}
+						}
+						return iterator.NewMergedIterator(its, cmp, true)
+					}, want, cmp.Compare, seeks, t.Depth, &st, true)
+					res.Seqs += st.Seqs
+					res.Moves += st.Moves
+					res.Errored += st.Errored
+					if v != "" {
+						res.Viol = append(res.Viol, fmt.Sprintf("merged iterator, %d keys, assignment #%d, child %d fails at its positioning call %d: %s", t.N, a, fc, fk, v))
+						return res
+					}
+				}
+			}
+		}
+	case "indexed-err":
+		// every split into runs x the data iterators fail at their k-th positioning call overall
+		if t.N == 0 {
+			return res
+		}
+		for a := t.From; a < t.To && a < 1<<(t.N-1); a++ {
+			var runs []*kvArray
+			cur := &kvArray{cmp: cmp}
+			for i, k := range keys {
+				cur.ks = append(cur.ks, []byte(k))
+				cur.vs = append(cur.vs, []byte(fmt.Sprintf("v%d", i)))
+				if i == len(keys)-1 || a&(1<<i) != 0 {
+					runs = append(runs, cur)
+					cur = &kvArray{cmp: cmp}
+				}
+			}
+			for fk := 1; fk <= 5; fk++ {
+				res.Cases++
+				st := walkStats{}
+				v := walkAllErr(func() iterator.Iterator {
+					left := fk
+					return iterator.NewIndexedIterator(iterator.NewArrayIndexer(&failIndex{runIndex: runIndex{runs: runs, cmp: cmp}, left: &left}), true)
+				}, want, cmp.Compare, seeks, t.Depth, &st, true)
+				res.Seqs += st.Seqs
+				res.Moves += st.Moves
+				res.Errored += st.Errored
+				if v != "" {
+					res.Viol = append(res.Viol, fmt.Sprintf("indexed iterator, %d keys, split #%b, data iterators fail at positioning call %d: %s", t.N, a, fk, v))
+					return res
+				}
 			}
 		}
 	case "indexed":
@@ -220,7 +345,7 @@ func init() {
 				Kind string `json:"kind"`
 			}
 			json.Unmarshal(task, &probe)
-			if probe.Kind == "merged" || probe.Kind == "indexed" {
+			if strings.HasPrefix(probe.Kind, "merged") || strings.HasPrefix(probe.Kind, "indexed") {
 				var t c02CompTask
 				json.Unmarshal(task, &t)
 				return explore.MustJSON(runC02Comp(&t))
@@ -250,6 +375,18 @@ func init() {
 					metas = append(metas, c02CompTask{Kind: "indexed", N: n, Depth: cd, From: 0, To: 1 << 5})
 				}
 			}
+			// a child / data iterator whose source fails at some positioning call: the parent stops
+			// with that error or answers like the model, never wrongly with Error() == nil
+			for n := 1; n <= 4; n++ {
+				total := 1
+				for i := 0; i < n; i++ {
+					total *= 3
+				}
+				for from := 0; from < total; from += 9 {
+					metas = append(metas, c02CompTask{Kind: "merged-err", N: n, Depth: 3, From: from, To: from + 9})
+				}
+				metas = append(metas, c02CompTask{Kind: "indexed-err", N: n, Depth: 3, From: 0, To: 1 << 5})
+			}
 			for _, t := range metas {
 				raw = append(raw, explore.MustJSON(t))
 			}
@@ -262,6 +399,7 @@ func init() {
 				}
 				c.Add("component_cases", r.Cases)
 				c.Add("component_movement_sequences", r.Seqs)
+				c.Add("component_sequences_ended_by_source_error", r.Errored)
 				c.Add("transitions", r.Moves)
 				for _, v := range r.Viol {
 					c.Report(&explore.Violation{Property: "C02", Sig: map[string]string{"check": "component-iterator", "kind": metas[i].Kind, "effect": v}, Detail: map[string]any{"task": metas[i], "violation": v}})
